@@ -162,15 +162,25 @@ func (c *jcall) judge(x *X, when string) string {
 	return fmt.Sprintf("%d:%s:E", c.tag, k)
 }
 
-func c06Body(inflight int, seqClient bool) func(x *X) {
+func c06Body(inflight int, seqClient bool, reduced bool) func(x *X) {
 	return func(x *X) {
-		enc := encNames[x.Choose(len(encNames))]
-		ti := x.Choose(len(c06Texts))
+		var enc string
+		var ti int
+		if reduced {
+			enc = encNames[x.Choose(2)*3] // default or json
+			ti = 3
+		} else {
+			enc = encNames[x.Choose(len(encNames))]
+			ti = x.Choose(len(c06Texts))
+		}
 		kinds := make([]int, inflight)
 		for i := range kinds {
 			kinds[i] = x.Choose(nKinds)
 		}
-		nfollow := 1 + x.Choose(3)*2 // 1, 3, 5 follow-up calls
+		nfollow := 3
+		if !reduced {
+			nfollow = 1 + x.Choose(3)*2 // 1, 3, 5 follow-up calls
+		}
 		jc := func() rpc.Codec { return rpc.NewJSONCodec() }
 		so := srvOpts{bufSize: 256, enc: enc, codec: jc}
 		f := newFixture(so, cliOpts{bufSize: 256})
@@ -211,6 +221,7 @@ func c06Body(inflight int, seqClient bool) func(x *X) {
 }
 
 func init() {
-	register(&Scenario{Prop: "C06", Name: "c06/2inflight", Quick: []Bound{{0, 0}, {1, 0}}, Thorough: []Bound{{2, 0}}, Body: c06Body(2, false), BudgetQ: 40})
-	register(&Scenario{Prop: "C06", Name: "c06/3inflight", Quick: []Bound{{0, 0}}, Thorough: []Bound{{1, 0}}, Body: c06Body(3, false), BudgetQ: 20})
+	register(&Scenario{Prop: "C06", Name: "c06/2inflight", Quick: []Bound{{0, 0}, {1, 0}}, Thorough: []Bound{{2, 0}}, Body: c06Body(2, false, false), BudgetQ: 40})
+	register(&Scenario{Prop: "C06", Name: "c06/3inflight", Quick: []Bound{{0, 0}}, Thorough: []Bound{{1, 0}}, Body: c06Body(3, false, false), BudgetQ: 20})
+	register(&Scenario{Prop: "C06", Name: "c06/3inflight-reduced", Quick: []Bound{{1, 0}}, Thorough: []Bound{{2, 0}}, Body: c06Body(3, false, true), BudgetQ: 30})
 }
